@@ -91,6 +91,7 @@ def zeroBits (neg : Bool) : Nat := b64.signBit neg
 def oneBits : Nat := 0x3FF0000000000000
 
 def isNaN (x : Nat) : Bool := decode x == .nan
+def isInf (x : Nat) : Bool := match decode x with | .inf _ => true | _ => false
 
 /-! ### arithmetic on bit patterns -/
 
